@@ -374,8 +374,8 @@ class TraverserVisitor:
             accept(d, self)
         for base in o.base_type_exprs:
             accept(base, self)
-        if o.metaclass:
-            accept(o.metaclass, self)
+        # `o.metaclass` is not visited on its own: it is the same node as
+        # `o.keywords["metaclass"]`, which the loop below visits.
         for v in o.keywords.values():
             accept(v, self)
         accept(o.defs, self)
